@@ -318,7 +318,17 @@ func (query *SearchQuery) GetAllBlockBloomKeysToSearch() (map[string]bool, map[s
 
 	if query.MatchFilter != nil {
 		matchKeys, originalMatchKeys, wildcardExists, matchOp := query.MatchFilter.GetAllBlockBloomKeysToSearch(query.FilterIsCaseInsensitive)
-		return getWordsOfBloomKeys(matchKeys), originalMatchKeys, wildcardExists, matchOp
+		matchKeys = getWordsOfBloomKeys(matchKeys)
+		if matchOp == Or {
+			for _, word := range query.MatchFilter.MatchWords {
+				if len(bytes.Trim(word, " ")) == 0 {
+					// This word has no key in the bloom, so the bloom cannot rule out a block.
+					matchKeys = make(map[string]bool)
+					break
+				}
+			}
+		}
+		return matchKeys, originalMatchKeys, wildcardExists, matchOp
 	} else {
 		blockBloomKeys, originalBlockBloomKeys, wildcardExists, err := query.ExpressionFilter.GetAllBlockBloomKeysToSearch(query.FilterIsCaseInsensitive)
 		if err != nil {
